@@ -248,7 +248,7 @@ def build_tu(vu, work, canary=None):
                     rule_r7(e, typedef_table(hdr))
                 if "r15" in pos:
                     # R15: `("literal" + s` -> `(std::string("literal") + s` (the front end does not find operator+ for a char array)
-                    e.text, k = re.subn(r'\(("[^"\n]*") \+ ', r'(std::string(\1) + ', e.text)
+                    e.text, k = re.subn(r'(?<!\+ )("[^"\n]*") \+ ', r'std::string(\1) + ', e.text)
                     if k:
                         e.rewrites.append("R15 literal + string -> std::string(literal) + string x%d" % k)
                 if "mono" in kv:
@@ -545,8 +545,10 @@ def vu_pipeline(vu, pid, tier, seed, workroot, pool):
         cans = []
     if tier == "quick" and cans:
         k = vu.get("quick_canaries", 1)
+        if k == 0:
+            cans = []
         idx = [(seed + i) % len(cans) for i in range(min(k, len(cans)))]
-        cans = [cans[i] for i in sorted(set(idx))]
+        cans = [cans[i] for i in sorted(set(idx))] if cans else []
     can_futs = {pool.submit(run_canary, vu, workroot, c, tier, entries): c for c in cans}
     for f in cf.as_completed(list(futs)):
         e = futs[f]
